@@ -5,6 +5,7 @@
 From Coq Require Import List NArith ZArith Lia Bool.
 From Coq Require Import ZifyBool ZifyN ZifyNat.
 From Minimq Require Import Bytes Varint Utf8 Props Ser De Reader Arena Core Machine Util Lts.
+From Minimq Require Import PacketShape.
 Import ListNotations.
 Local Open Scope N_scope.
 
@@ -79,10 +80,10 @@ Proof.
     try apply tframe_refl.
   - (* publish *) destruct q; [apply tframe_refl| |]; (destruct pid as [id|]; [|apply tframe_refl]).
     + apply tframe_queue_ctl_checked.
-    + destruct (mem_id id (s_srv s)); [apply tframe_queue_ctl_checked|].
-      destruct (MAX_INBOUND_QOS2 <=? glen (s_srv s)); [apply tframe_queue_ctl_checked|].
-      pose proof (tframe_queue_ctl_checked (set_srv s (s_srv s ++ [id])) (CPubRec id 0) (negb (false || negb (rc_success 0)))) as H.
-      exact H.
+    + match goal with |- context [queue_ctl_checked s ?a ?dl] =>
+        pose proof (tframe_queue_ctl_checked s a dl) as Hq; destruct (queue_ctl_checked s a dl) as [s1 hr] end.
+      cbn [fst] in Hq |- *. destruct hr as [b|e]; [|exact Hq].
+      destruct (_ || _); exact Hq.
   - destruct (ack_packet _ _) as [o f]. destruct (negb f); [apply tframe_refl|]. destruct (rc_success rc); split; reflexivity.
   - destruct (ack_packet _ _) as [o f]. destruct f.
     + destruct (negb (rc_success rc)); [split; reflexivity|]. cbn [set_ob s_rt].
@@ -267,8 +268,7 @@ Proof.
     try (intros H; exact H).
   - destruct q; [intros H; exact H| |]; (destruct pid as [id|]; [|intros H; exact H]).
     + unfold queue_ctl_checked. destruct (check_control_size _ _); [intros H; exact H|]. destruct (queue_control _ _); intros H; exact H.
-    + destruct (mem_id id (s_srv s)); [|destruct (MAX_INBOUND_QOS2 <=? glen (s_srv s))];
-        unfold queue_ctl_checked; cbn [set_srv s_rt s_ob]; destruct (check_control_size _ _); try (intros H; exact H);
+    + q2_split; unfold queue_ctl_checked; destruct (check_control_size _ _); try (intros H; exact H);
         destruct (queue_control _ _); intros H; exact H.
   - destruct (ack_packet _ _) as [o f]. destruct (negb f); [intros H; exact H|]. destruct (rc_success rc); intros H; exact H.
   - destruct (ack_packet _ _) as [o f]. destruct f.
